@@ -1,6 +1,6 @@
 //! C11 — path filter verdicts follow the documented glob / ignore / extension rules.
 
-use std::{ffi::OsString, path::PathBuf};
+use std::{ffi::OsString, path::{Path, PathBuf}};
 
 use proptest::prelude::*;
 use serde::{Deserialize, Serialize};
@@ -190,12 +190,38 @@ pub fn run(c: &C11Case) -> Outcome {
 		.iter()
 		.filter_map(|(e, p)| c.events.get(*e as usize).and_then(|ev| ev.get(*p as usize)).map(|pr| probe_path(&origin, pr)))
 		.collect();
+	// the filterer is given the whitelisted paths in a spelling of their own: the same path (std::path
+	// equality) written with a doubled separator, a "." component or a trailing separator, chosen per entry
+	let whitelist_spelled: Vec<PathBuf> = whitelist
+		.iter()
+		.enumerate()
+		.map(|(i, p)| {
+			let parent = p.parent().map(Path::to_path_buf);
+			let name = p.file_name().map(|n| n.to_os_string());
+			match ((i + c.events.len() + c.filters.len()) % 4, parent, name) {
+				(1, Some(d), Some(n)) => {
+					let mut s = d.into_os_string();
+					s.push("//");
+					s.push(n);
+					PathBuf::from(s)
+				}
+				(2, Some(d), Some(n)) => d.join(".").join(n),
+				(3, _, _) => {
+					let mut s = p.clone().into_os_string();
+					s.push("/");
+					PathBuf::from(s)
+				}
+				_ => p.clone(),
+			}
+		})
+		.collect();
+	debug_assert!(whitelist.iter().zip(whitelist_spelled.iter()).all(|(a, b)| a == b));
 	let mk = |ignores: Vec<String>| {
 		rt.block_on(GlobsetFilterer::new(
 			&origin,
 			c.filters.iter().map(|f| (f.clone(), None)),
 			ignores.into_iter().map(|f| (f, None)),
-			whitelist.clone(),
+			whitelist_spelled.clone(),
 			ignore_files.clone(),
 			c.exts.iter().map(OsString::from),
 		))
@@ -325,7 +351,7 @@ pub fn check(e: &Engine) {
 	e.assume("ignore-file leg inside C11 uses a single origin-level file without negations (scoping and negation are C03's subject)");
 	e.explore(
 		"verdicts",
-		LegOpts::det(e.tier.pick(25_000, 500_000), "0-3 filter patterns, 0-3 ignore patterns, 0-2 extensions, optional whitelist and origin-level ignore file; 1-5 events of 0-3 paths (file/dir/unknown, inside/outside origin); verdict vs independent matcher + laws (empty config, precedence, monotonicity); non-trivial = a pattern matches a path and >=2 mechanisms configured"),
+		LegOpts::det(e.tier.pick(25_000, 500_000), "0-3 filter patterns, 0-3 ignore patterns, 0-2 extensions, optional whitelist (entries handed over in a spelling of their own: plain, doubled separator, '.' component, trailing separator) and origin-level ignore file; 1-5 events of 0-3 paths (file/dir/unknown, inside/outside origin); verdict vs independent matcher + laws (empty config, precedence, monotonicity); non-trivial = a pattern matches a path and >=2 mechanisms configured"),
 		&strategy,
 		&run,
 	);
